@@ -8,6 +8,13 @@ namespace Petl.Snapshot
 open Petl.Gen
 
 def expectedC13 : List (String × String) := [
+  ("file:comparison.py", "17971f67ee946013"),
+  ("file:config.py", "142bde514c82c29d"),
+  ("file:transform/basics.py", "ef1ded632cafe787"),
+  ("file:transform/headers.py", "b170f0cc5a1c0354"),
+  ("file:transform/regex.py", "6f7519d83abfcff1"),
+  ("file:transform/selects.py", "f935e8905e1e021c"),
+  ("file:util/base.py", "771a68108eeb730d"),
   ("transform.basics.head", "14e815556131ea10"),
   ("transform.basics.iterrowslice", "8702797bf2f3a3f8"),
   ("transform.basics.itertail", "c873a4078b472ed7"),
